@@ -175,6 +175,24 @@ fn mutate_case(ctx: &Ctx, case: u64, r: &mut Rng, rep: &mut Report) {
         v.extend(vec![0u8; h.cfg.max * 2]);
         h.model.insert(pk("holes.bin"), Entry { kind: Kind::File(Arc::new(v)), mode: 0o600, mtime: (1_650_000_001, 0), hardlink: None });
     }
+    // names that order differently as whole path strings and component-wise: a directory `d` next to `d.txt`, `d-old`,
+    // `d (copy)`, `d!` ... (bytes below '/'); the walk over the destination and the snapshot's node stream have to
+    // agree on which comes first
+    if r.chance(1, 2) {
+        let dirs: Vec<PathKey> = h.model.entries.iter().filter(|(k, e)| matches!(e.kind, Kind::Dir) && h.model.entries.keys().any(|k2| k2.len() > k.len() && k2.starts_with(k))).map(|(k, _)| k.clone()).collect();
+        if !dirs.is_empty() {
+            let d = r.pick(&dirs).clone();
+            for suffix in r.subset(&[&b".txt"[..], b"-old", b" (copy)", b"!", b"+x", b",v", b"\x01"], 1, 2) {
+                let mut k = d.clone();
+                k.last_mut().unwrap().extend_from_slice(suffix);
+                if !h.model.entries.contains_key(&k) {
+                    let n = r.usize_below(200);
+                    h.model.insert(k, Entry { kind: Kind::File(Arc::new(r.bytes(n))), mode: 0o644, mtime: (1_650_000_500, 0), hardlink: None });
+                    rep.count("siblings_ordering_before_slash_planted", 1);
+                }
+            }
+        }
+    }
     let Ok(id) = h.backup(true) else { return };
     let model = h.snaps[&id].clone();
     let repo = match h.env.full() {
